@@ -14,3 +14,6 @@ pub fn verif_format() -> (r: String)
 // std: u64::from(bool) is 1 for true and 0 for false
 pub assume_specification [<u64 as core::convert::From<bool>>::from] (b: bool) -> (r: u64)
     ensures r == (if b { 1u64 } else { 0u64 });
+// std: Option<&T>::copied (T: Copy)
+pub assume_specification<'a, T: Copy> [Option::<&'a T>::copied] (o: Option<&'a T>) -> (r: Option<T>)
+    ensures r == (match o { Some(v) => Some(*v), None => None::<T> });
